@@ -378,6 +378,15 @@ def oracle(c, r):
         if "err" in r:
             yield ("tolmap-ctor", "sorted finite breakpoints %r rejected" % (bp,))
             return
+        z = r.get("zone")
+        if z is not None:
+            a, b = bp[0], bp[-1]
+            if not z["ok"] or (z["try_rev"] and b > a):
+                yield ("tolerance-zone", "Tolerance::try_new(%r, %r) ok=%r, with the bounds swapped ok=%r" % (a, b, z["ok"], z["try_rev"]))
+            elif z["conforms"] != [(a <= x <= b) for x in c["xs"]] or z["size"] != b - a or z["center"] != (b + a) / 2:
+                yield ("tolerance-zone", "zone [%r, %r]: conforms %r on %r, size %r, centre %r" % (a, b, z["conforms"], c["xs"], z["size"], z["center"]))
+            elif z["sym"] != [a - abs(b - a), a + abs(b - a)] or z["symn"] != z["sym"]:
+                yield ("tolerance-zone", "symmetrical(%r, +-%r) = %r / %r" % (a, b - a, z["sym"], z["symn"]))
         for x, o in zip(c["xs"], r["out"]):
             if math.isnan(x):
                 continue
